@@ -24,7 +24,7 @@ LINKS_CORE = [[], [('Location', 'abs-path')], [('Location', 'abs-same')], [('Loc
               [('Content-Location', 'abs-path')], [('Content-Location', 'abs-same')], [('Content-Location', 'other-host')]]
 LINKS_REL = [[('Location', 'rel')], [('Content-Location', 'rel')]]
 # further forms, swept (thorough) over a reduced method/status set
-LINKS_SWEEP = LINKS_REL + [[('Location', 'other-host'), ('Content-Location', 'abs-same')],
+LINKS_SWEEP = [[('Location', 'other-host'), ('Content-Location', 'abs-same')],
                [('Location', 'abs-path'), ('Content-Location', 'other-host')],
                [('Location', 'abs-same-lc-name')], [('Content-Location', 'abs-same-ows')],
                [('Location', 'rel-query')], [('Content-Location', 'rel-query')]]
@@ -52,7 +52,7 @@ def all_cases(quick):
         for q in queries:
             for m in methods:
                 for st in statuses:
-                    for ln in LINKS_CORE + (LINKS_REL if quick else []):
+                    for ln in LINKS_CORE + LINKS_REL:
                         add(prime, q, m, st, ln)
     if not quick:
         for q in queries:
